@@ -1,7 +1,7 @@
 """C14 - ABOR at any moment stops the transfer, is answered, and keeps the session usable."""
 import random
 
-from harness import corecheck, gen, report
+from harness import corecheck, gen, mc, report
 
 LOGIN = [["connect", 1], ["send", 1, "USER u1"], ["send", 1, "PASS pw1"]]
 FOLLOW = {
@@ -75,6 +75,7 @@ def families(tier, rng):
 
 def run(tier, seed):
     chk = report.Check("C14", tier, seed)
+    mc.into(chk, mc.run_config("MC_Fault_q" if tier == "quick" else "MC_Fault_t", "MC_Seq", must_cover=("ReplyEv", "WorkerStep")))
     rng = random.Random(seed)
     fam = families(tier, rng)
     backends = ["memory"] if tier == "quick" else ["memory", "path", "async"]
